@@ -61,8 +61,15 @@ func pub(n int, key string) *Op {
 
 var scenarios = []scenario{
 	{"publish-single", func(e *Env, run func(*Op) *Obs) *Op { baseSetup(run, false, false); return pub(1, "") }},
-	{"publish-batch-ordered", func(e *Env, run func(*Op) *Obs) *Op { baseSetup(run, true, false); run(pub(1, "k")); return pub(3, "k") }},
-	{"create-topic", func(e *Env, run func(*Op) *Obs) *Op { baseSetup(run, false, false); return &Op{Kind: "CreateTopic", Name: "projects/p/topics/new"} }},
+	{"publish-batch-ordered", func(e *Env, run func(*Op) *Obs) *Op {
+		baseSetup(run, true, false)
+		run(pub(1, "k"))
+		return pub(3, "k")
+	}},
+	{"create-topic", func(e *Env, run func(*Op) *Obs) *Op {
+		baseSetup(run, false, false)
+		return &Op{Kind: "CreateTopic", Name: "projects/p/topics/new"}
+	}},
 	{"create-subscription", func(e *Env, run func(*Op) *Obs) *Op {
 		baseSetup(run, false, false)
 		q := &SubReq{Name: "projects/p/subscriptions/new", Topic: "projects/p/topics/t0", Filter: "attributes:x"}
@@ -411,6 +418,12 @@ func cmdFaultEnum(args []string) error {
 			}
 			jobs = append(jobs, job{c.sc, k, K, mode})
 		}
+		// a real cancellation of the caller's context after the last statement returned and
+		// before the commit: database/sql rolls the transaction back on its own and COMMIT then
+		// reports "transaction has already been committed or rolled back"
+		if K >= 2 {
+			jobs = append(jobs, job{c.sc, K - 1, K, "cancel-before-commit"})
+		}
 	}
 	ch := make(chan job)
 	var wg sync.WaitGroup
@@ -474,7 +487,8 @@ func runFault(sc scenario, k, of int, mode string) (*faultResult, []*Obs, error)
 		return nil, nil, err
 	}
 	defer p.e.Close()
-	ctx := context.Background()
+	ctx, cancelCtx := context.WithCancel(context.Background())
+	defer cancelCtx()
 	r := &faultResult{Scenario: sc.Name, K: k, Of: of, Mode: mode}
 	// a waiter on every subscription: none may be woken by a transaction that did not commit
 	var chans []actions.PublishNotifier
@@ -492,7 +506,23 @@ func runFault(sc scenario, k, of int, mode string) (*faultResult, []*Obs, error)
 	var cmu sync.Mutex
 	armed := true
 	SetDBHook(p.e.DSN, func(_ context.Context, kind CallKind, q string, after bool) error {
-		if after || kind == KRollback {
+		if kind == KRollback {
+			return nil
+		}
+		if after {
+			if mode == "cancel-before-commit" {
+				cmu.Lock()
+				hit := armed && n == k
+				if hit {
+					armed = false
+					r.Call = string(kind) + " (returned)"
+				}
+				cmu.Unlock()
+				if hit {
+					cancelCtx()
+					time.Sleep(20 * time.Millisecond) // database/sql's watcher rolls the transaction back
+				}
+			}
 			return nil
 		}
 		cmu.Lock()
@@ -501,6 +531,9 @@ func runFault(sc scenario, k, of int, mode string) (*faultResult, []*Obs, error)
 			return nil
 		}
 		n++
+		if mode == "cancel-before-commit" {
+			return nil
+		}
 		if n == k {
 			armed = false
 			r.Call = string(kind)
@@ -511,12 +544,16 @@ func runFault(sc scenario, k, of int, mode string) (*faultResult, []*Obs, error)
 		}
 		return nil
 	})
-	o, err := p.e.Exec(ctx, cloneOp(p.op), p.pre)
+	o, err := p.e.execNoDump(ctx, cloneOp(p.op), p.pre)
 	cmu.Lock()
 	armed = false
 	cmu.Unlock()
 	SetDBHook(p.e.DSN, nil)
 	if err != nil {
+		return nil, nil, err
+	}
+	ctx = context.Background()
+	if o.Post, err = p.e.Dump(ctx); err != nil {
 		return nil, nil, err
 	}
 	r.Errored = o.Resp.Kind == "err"
